@@ -13,7 +13,8 @@ RULE = ("exhaustive: all 256 byte values (decode, re-encode, distinctness, ASCII
         "table characters or the documented alias U+00A4 -> 0x24; otherwise UnicodeEncodeError naming position and codec); every "
         "unencodable BMP code point (plus every 257th astral one, plus each table letter followed by one of 13 combining marks) in real "
         "assemblies in 4 (thorough: all 11) of the places where source characters are encoded - .ascii/.asciz with each quote, open and "
-        "closed character literals, two-character literals, immediates, tape names - each of which must be refused with invalid-character; random "
+        "closed character literals, two-character literals, immediates, tape names - each of which must be refused with invalid-character; real command-line runs on four unencodable inputs (both report formats, UTF-8 and ASCII-only consoles, -o / make_raw, with and "
+        "without an earlier good output in place) must fail and leave the outputs alone; random "
         "strings of <= 40 characters with offenders at drawn positions, directly and through '.ascii'/'.asciz'/'c programs. "
         "Non-trivial: every exhaustive case; random strings with >= 1 offender not at index 0 or >= 2 distinct encodable characters. "
         "Distinct = distinct byte / code point / string.")
@@ -25,7 +26,7 @@ N_CP = 0x110000
 
 
 def shards(tier):
-    specs = [{"part": "bytes"}]
+    specs = [{"part": "bytes"}, {"part": "cli"}]
     n = 16
     for i in range(n):
         specs.append({"part": "codepoints", "lo": N_CP * i // n, "hi": N_CP * (i + 1) // n})
@@ -131,6 +132,32 @@ def run_shard(spec, ctx):
         ctx.extra["codepoints_checked"] = spec["hi"] - spec["lo"]
         ctx.classes["codepoint"] += spec["hi"] - spec["lo"]
         ctx.samples.append(f"U+{spec['lo']:04X}..U+{spec['hi'] - 1:04X} each encoded on its own")
+    elif part == "cli":
+        # "surfaces as an assembly error rather than as a wrong byte", seen from outside: real command-line runs (both report
+        # formats, UTF-8 and ASCII-only consoles, -o and make_raw outputs, with and without a good output of an earlier run in
+        # place) end with a non-zero status and leave no new or changed output behind
+        sources = {"string": '\t.ascii "Прив\u0451т"\n', "char-literal": "\tmov #'\u20ac', r0\n", "tape-name": '\tnop\n\tmake_wav "t.wav", "ИМЯ-\u0451"\n',
+                   "asciz-combining": '\t.asciz /и\u0306/\n'}
+        for what, src in sources.items():
+            for fmt in ("bare", "graphical"):
+                for ioenc in ("utf-8", "ascii"):
+                    for out_sel in ("o", "make_raw"):
+                        for earlier in (False, True):
+                            text = src + ('\tmake_raw "out.raw"\n' if out_sel == "make_raw" else "")
+                            argv = ["p.mac", "--report-format", fmt] + (["-o", "out.raw"] if out_sel == "o" else [])
+                            tree = {"p.mac": text}
+                            if earlier:
+                                tree["out.raw"] = b"good bytes of an earlier run"
+                            with driver.Scratch(tree) as sc:
+                                res = driver.run_cli(sc, argv, subprocess_mode=True, env_extra={"PYTHONIOENCODING": ioenc})
+                                new = sorted(k for k in res.after if k not in res.before and not k.endswith("/"))
+                                changed = sorted(k for k in res.after if k in res.before and res.after[k] != res.before[k])
+                            key = (what, fmt, ioenc, out_sel, earlier)
+                            ctx.case(key, True, ["cli-" + what, "cli-console-" + ioenc], sample=f"{argv} PYTHONIOENCODING={ioenc} on {text!r}" if key == ("string", "bare", "ascii", "make_raw", True) else None)
+                            case = {"kind": "cli", "what": what, "fmt": fmt, "ioenc": ioenc, "out": out_sel, "earlier": earlier}
+                            if res.status == 0 or new or changed:
+                                ctx.fail(f"cli:{'status' if res.status == 0 else 'files'}:{what}", f"{argv} (PYTHONIOENCODING={ioenc}, {'with' if earlier else 'without'} an earlier out.raw) on {text!r}: "
+                                         f"exit status {res.status}, new files {new}, changed files {changed}\n{res.stderr.decode('utf-8', 'replace')[-300:]}", case)
     elif part == "asm-codepoints":
         # every unencodable BMP code point, and every table character followed by a combining mark, through real assemblies in
         # every place where pdpy11 encodes source characters; each line of a batch must be refused with invalid-character
@@ -208,6 +235,20 @@ def run_shard(spec, ctx):
 def replay(case):
     driver.pd()
     kind = case["kind"]
+    if kind == "cli":
+        src = {"string": '\t.ascii "Прив\u0451т"\n', "char-literal": "\tmov #'\u20ac', r0\n", "tape-name": '\tnop\n\tmake_wav "t.wav", "ИМЯ-\u0451"\n',
+               "asciz-combining": '\t.asciz /и\u0306/\n'}[case["what"]]
+        text = src + ('\tmake_raw "out.raw"\n' if case["out"] == "make_raw" else "")
+        tree = {"p.mac": text}
+        if case["earlier"]:
+            tree["out.raw"] = b"good bytes of an earlier run"
+        with driver.Scratch(tree) as sc:
+            res = driver.run_cli(sc, ["p.mac", "--report-format", case["fmt"]] + (["-o", "out.raw"] if case["out"] == "o" else []), subprocess_mode=True, env_extra={"PYTHONIOENCODING": case["ioenc"]})
+            new = sorted(k for k in res.after if k not in res.before and not k.endswith("/"))
+            changed = sorted(k for k in res.after if k in res.before and res.after[k] != res.before[k])
+        if res.status == 0 or new or changed:
+            return [(f"cli:{'status' if res.status == 0 else 'files'}:{case['what']}", f"exit status {res.status}, new {new}, changed {changed}")]
+        return []
     if kind in ("expect", "equiv"):
         return oracle.replay_generic(case)
     fails = []
